@@ -49,7 +49,10 @@ const F_CAT: u32 = 12;
 const F_ATTRS: u32 = 13;
 /// model-side fast "field" of the JSON path `attrs.<JKEYS[i]>`
 const F_JSON_FAST0: u32 = 100;
-const JKEYS: [&str; 5] = ["k", "n", "t", "u", "x"];
+const JKEYS: [&str; 6] = ["k", "n", "t", "u", "x", "m"];
+/// keys the query generators draw from (`m`, mixed supplied types, only occurs in the column-type stage)
+const N_QUERY_KEYS: usize = 5;
+const JKEY_MIXED: usize = 5;
 const FIELD_NAMES: [&str; 14] = ["id", "body", "title", "tag", "num", "inum", "score", "when", "ip", "flag", "blob", "ifast", "cat", "attrs"];
 
 const K_F4: &str = "C03:msm-ignored-single-should-clause";
@@ -633,8 +636,8 @@ impl Q {
             Q::JExists(k) => match k {
                 Some(k) => out.extend(["E".into(), (F_JSON_FAST0 + *k as u32).to_string()]),
                 None => {
-                    out.extend(["D".into(), JKEYS.len().to_string()]);
-                    for k in 0..JKEYS.len() {
+                    out.extend(["D".into(), N_QUERY_KEYS.to_string()]);
+                    for k in 0..N_QUERY_KEYS {
                         out.extend(["E".into(), (F_JSON_FAST0 + k as u32).to_string()]);
                     }
                 }
@@ -1151,6 +1154,10 @@ fn check_queries(ctx: &mut Ctx, spec: &CorpusSpec, b: &Built, qs: &[Q]) {
     let mcount = split(ctx.model.ask(&format!("C03 count {cl} {joined}")));
     // the named hypotheses of C03_compile_sound_partial, evaluated by the model on each query
     let mok = split(ctx.model.ask(&format!("C03 ok {joined}")));
+    // … and the hypotheses on the corpus (alive bitset covers the documents, positions increasing)
+    if ctx.model.ask(&format!("C03 wf {cl}")) != "1" {
+        ctx.report.violation("model", "C03:corpus-not-well-formed-for-the-theorems", "the analysed corpus violates Seg.wf / DocsWf (positions not increasing?)".into(), json!({"kind": "corpus", "corpus": spec}));
+    }
     let n_docs: usize = b.segs.iter().map(|s| s.len()).sum();
     let n_live = b.expected_live.len();
     let multi = b.segs.len() >= 2 || b.segs.iter().any(|s| s.iter().any(|d| !d.1));
@@ -1505,7 +1512,7 @@ fn gen_leaf(rng: &mut Rng, pools: &Pools) -> Q {
                     let n = 2 + rng.usize_below(2);
                     Q::JPhrase { terms: (0..n).map(|i| (i, rng.pick(&pools.words).clone())).collect(), slop: if rng.chance(2, 3) { 0 } else { 1 + rng.below(2) as u32 } }
                 }
-                3 => Q::JExists(if rng.chance(1, 3) { None } else { Some(rng.usize_below(JKEYS.len())) }),
+                3 => Q::JExists(if rng.chance(1, 3) { None } else { Some(rng.usize_below(N_QUERY_KEYS)) }),
                 _ => {
                     let mut b = |rng: &mut Rng| match rng.below(4) { 0 => None, _ => Some((rng.chance(1, 2), if rng.chance(1, 3) { boundary_i64(rng) } else { rng.below(12) as i64 - 6 })) };
                     let (lo, hi) = (b(rng), b(rng));
@@ -1940,6 +1947,71 @@ fn jb_holds(lo: &JB, hi: &JB, hv: i128) -> bool {
         && (match hi { JB::Unb => true, JB::Val(true, _, b) => hv <= 2 * *b, JB::Val(false, _, b) => hv < 2 * *b, JB::F(true, h) => hv <= *h as i128, JB::F(false, h) => hv < *h as i128 })
 }
 
+/// values of `attrs.<key>` per source segment (commit chunk) that survives until the merge: chunks whose
+/// documents are all deleted are dropped before; deleted documents of a surviving chunk still count
+fn json_sources(spec: &CorpusSpec, key: usize) -> Vec<Vec<i128>> {
+    let deleted: BTreeSet<u64> = spec.deletes.iter().map(|x| x.1).collect();
+    let mut out = vec![];
+    let mut pos = 0usize;
+    for n in &spec.chunks {
+        let docs = &spec.docs[pos..(pos + n).min(spec.docs.len())];
+        pos = (pos + n).min(spec.docs.len());
+        if docs.is_empty() || docs.iter().all(|d| deleted.contains(&d.id)) { continue; }
+        let vals: Vec<i128> = docs.iter().filter_map(|d| d.attrs.as_ref().and_then(|a| a.iter().find(|(k, _)| *k == key)).map(|(_, v)| match v {
+            JVal::Int(i) => *i as i128, JVal::UInt(u) => *u as i128, JVal::Half(h) => *h as i128, _ => 0 })).collect();
+        out.push(vals);
+    }
+    out
+}
+
+/// number of source segments alive at merge time
+fn surviving_chunks(spec: &CorpusSpec) -> usize {
+    let deleted: BTreeSet<u64> = spec.deletes.iter().map(|x| x.1).collect();
+    let mut pos = 0usize;
+    let mut n_alive = 0;
+    for n in &spec.chunks {
+        let docs = &spec.docs[pos..(pos + n).min(spec.docs.len())];
+        pos = (pos + n).min(spec.docs.len());
+        if !docs.is_empty() && !docs.iter().all(|d| deleted.contains(&d.id)) { n_alive += 1; }
+    }
+    n_alive
+}
+
+/// write-time column type of a set of values of `attrs.<key>` (key n: supplied as i64, u: as u64, x: as f64)
+fn written_col(key: usize, vals: &[i128]) -> &'static str {
+    if key == 4 { "f" } else if key == 1 || vals.iter().all(|v| *v < i64::MAX as i128) { "i" } else { "u" }
+}
+
+/// predicted column type of `attrs.<key>` in final segment `si` (None: no column)
+fn predicted_col(ctx: &mut Ctx, spec: &CorpusSpec, b: &Built, key: usize, si: usize) -> Option<String> {
+    if spec.merge && surviving_chunks(spec) >= 2 {
+        // one merged segment: the merger types the column from the (min, max) of every source column
+        let srcs: Vec<String> = json_sources(spec, key).iter().filter(|v| !v.is_empty())
+            .map(|v| format!("{}:{}:{}", written_col(key, v), v.iter().min().unwrap(), v.iter().max().unwrap())).collect();
+        if srcs.is_empty() { return None; }
+        Some(ctx.model.ask(&format!("C03 jmerge {}", srcs.join(","))))
+    } else {
+        let vals: Vec<i128> = b.segs[si].iter().filter_map(|(d, _)| d.fast.iter().find(|(f, _)| *f == F_JSON_FAST0 + key as u32)
+            .map(|(_, v)| if key == 1 { (*v as i128) - (1i128 << 63) } else if key == 4 { (*v as i128) - (1i128 << 60) } else { *v as i128 })).collect();
+        if vals.is_empty() { None } else { Some(written_col(key, &vals).to_string()) }
+    }
+}
+
+/// the numeric column type of `attrs.<key>` the segment really has
+fn real_col(r: &tantivy::SegmentReader, key: usize) -> Result<Option<&'static str>, String> {
+    use tantivy::columnar::ColumnType;
+    let hs = r.fast_fields().dynamic_column_handles(&format!("attrs.{}", JKEYS[key])).map_err(|e| e.to_string())?;
+    let mut found = None;
+    for h in hs {
+        let t = match h.column_type() { ColumnType::I64 => Some("i"), ColumnType::U64 => Some("u"), ColumnType::F64 => Some("f"), _ => None };
+        if let Some(t) = t {
+            if found.is_some() { return Err("two numerical columns for one path".into()); }
+            found = Some(t);
+        }
+    }
+    Ok(found)
+}
+
 /// one (corpus, path, bounds) case; the corpus holds only the JSON field
 fn check_json_range_case(ctx: &mut Ctx, spec: &CorpusSpec, b: &Built, key: usize, lo: &JB, hi: &JB) {
     let case = json!({"kind": "json-range", "corpus": spec, "key": key, "lo": lo, "hi": hi});
@@ -1958,12 +2030,13 @@ fn check_json_range_case(ctx: &mut Ctx, spec: &CorpusSpec, b: &Built, key: usize
     let mut f64_upper_below_min = false;
     // a fractional bound is replaced by Included(trunc): wrong for a positive lower / negative upper bound
     let f64_fract = matches!(lo, JB::F(_, h) if *h > 0 && *h % 2 != 0) || matches!(hi, JB::F(_, h) if *h < 0 && *h % 2 != 0);
-    for seg in &b.segs {
+    for (si, seg) in b.segs.iter().enumerate() {
         let vals: Vec<(u64, bool, i128)> = seg.iter().filter_map(|(d, alive)| value_of(d).map(|v| (d.id, *alive, v))).collect();
         if vals.is_empty() { continue; }
+        let pcol = predicted_col(ctx, spec, b, key, si).unwrap_or_else(|| "i".into());
         // key "n" holds values supplied as i64, key "u" values supplied as u64: a u64-supplied value keeps
         // the column i64 only when it is strictly below i64::MAX (columnar accept_value)
-        let col = if key == 4 { "f" } else if key == 1 || vals.iter().all(|x| x.2 < i64::MAX as i128) { "i" } else { "u" };
+        let col: &str = &pcol;
         if col == "i" { if let JB::Val(_, true, v) = lo { if *v > i64::MAX as i128 { u64_lower_on_i64 = true; } } }
         if col == "u" { if let JB::F(_, h) = hi { if *h < 0 { f64_upper_below_min = true; } } }
         let list = vals.iter().map(|x| x.2.to_string()).collect::<Vec<_>>().join(",");
@@ -1973,7 +2046,7 @@ fn check_json_range_case(ctx: &mut Ctx, spec: &CorpusSpec, b: &Built, key: usize
             ctx.report.violation("model", "C03:model-rejected-request", format!("jrange answered {ans}"), case.clone());
             return;
         }
-        if parts[2] != "1" {
+        if parts[2] != "1" && !(spec.merge && surviving_chunks(spec) >= 2) {
             ctx.report.violation("model", "C03:json-column-type-model-vs-harness", format!("column type {col} not predicted by colOf for {list}"), case.clone());
         }
         for (i, x) in vals.iter().enumerate() {
@@ -2043,10 +2116,20 @@ fn check_json_ranges(ctx: &mut Ctx, n_corpora: u64, n_queries: usize) {
         let mut left = n;
         for sidx in 0..nseg { let c = if sidx + 1 == nseg { left } else { 1 + rng.usize_below(left.max(2) - 1) }; chunks.push(c.min(left)); left -= c.min(left); }
         let deletes = if rng.chance(1, 2) { vec![(chunks.len() - 1, 1000 + rng.below(n as u64))] } else { vec![] };
-        let _ = rng.chance(1, 4);
-        // no merge here: the column type of a merged segment follows the merger's own coercion rule
-        let spec = CorpusSpec { docs, chunks, cut: 0, deletes, merge: false };
+        let merge = rng.chance(1, 4);
+        let spec = CorpusSpec { docs, chunks, cut: 0, deletes, merge };
         let b = match build(&spec) { Ok(b) => b, Err(e) => { ctx.report.violation("oracle", "C03:index-build-failed", e, json!({"kind":"corpus","corpus":spec})); continue; } };
+        // the column type of every numeric path in every final segment: written (colOf) or merged (mergedCol)
+        for (si, r) in b.searcher.segment_readers().iter().enumerate() {
+            for key in [1usize, 3, 4] {
+                let pred = predicted_col(ctx, &spec, &b, key, si);
+                let real = real_col(r, key);
+                ctx.report.count(&format!("json-column-type:{}{}", real.clone().ok().flatten().unwrap_or("none"), if spec.merge && surviving_chunks(&spec) >= 2 { ":merged" } else { "" }));
+                if real != Ok(pred.as_deref().map(|x| match x { "i" => "i", "u" => "u", _ => "f" })) {
+                    ctx.report.violation("model", "C03:json-column-type-model-vs-implementation", format!("segment {si} attrs.{}: real column type {:?}, model {:?}", JKEYS[key], real, pred), json!({"kind":"corpus","corpus":spec}));
+                }
+            }
+        }
         for _ in 0..n_queries {
             let key = *rng.pick(&[1usize, 3, 4]);
             let is_u = rng.chance(1, 2);
@@ -2064,6 +2147,162 @@ fn check_json_ranges(ctx: &mut Ctx, n_corpora: u64, n_queries: usize) {
             let (mut flo, fhi) = (fb(&mut rng), fb(&mut rng));
             if flo == JB::Unb && fhi == JB::Unb { flo = JB::F(true, 1); }
             check_json_range_case(ctx, &spec, &b, key, &flo, &fhi);
+        }
+    }
+}
+
+/// column type of a JSON path that receives i64- and u64-supplied values (f64 when negative values meet
+/// values ≥ i64::MAX), written and merged: Lean `writtenCol` / `mergedCol` vs the real column
+fn check_json_mixed_column_types(ctx: &mut Ctx, n_corpora: u64) {
+    let ivals: [i64; 7] = [i64::MIN, -5, -1, 0, 3, 4096, i64::MAX];
+    let uvals: [u64; 7] = [0, 7, i64::MAX as u64 - 1, i64::MAX as u64, i64::MAX as u64 + 1, u64::MAX - 1, u64::MAX];
+    for _ in 0..n_corpora {
+        let mut rng = ctx.rng.fork();
+        let n = 4 + rng.usize_below(20);
+        let (neg, big) = (rng.below(4), rng.below(4));
+        let docs: Vec<DocSpec> = (0..n).map(|i| {
+            let mut attrs = vec![];
+            if rng.chance(4, 5) {
+                let v = if rng.chance(1, 2) {
+                    JVal::Int(if rng.below(6) < neg { *rng.pick(&ivals[..3]) } else { *rng.pick(&ivals[3..]) })
+                } else {
+                    JVal::UInt(if rng.below(6) < big { *rng.pick(&uvals[3..]) } else { *rng.pick(&uvals[..3]) })
+                };
+                attrs.push((JKEY_MIXED, v));
+            }
+            DocSpec { id: 1000 + i as u64, attrs: Some(attrs), ..Default::default() }
+        }).collect();
+        let nseg = 1 + rng.usize_below(3);
+        let mut chunks = vec![];
+        let mut left = n;
+        for sidx in 0..nseg { let c = if sidx + 1 == nseg { left } else { 1 + rng.usize_below(left.max(2) - 1) }; chunks.push(c.min(left)); left -= c.min(left); }
+        let deletes = if rng.chance(1, 3) { vec![(chunks.len() - 1, 1000 + rng.below(n as u64))] } else { vec![] };
+        let merge = rng.chance(1, 2);
+        let spec = CorpusSpec { docs, chunks, cut: 0, deletes, merge };
+        check_json_mixed_case(ctx, &spec);
+    }
+}
+
+fn check_json_mixed_case(ctx: &mut Ctx, spec: &CorpusSpec) {
+    {
+        let case = json!({"kind": "json-mixed-column", "corpus": spec});
+        let b = match build(spec) { Ok(b) => b, Err(e) => { ctx.report.violation("oracle", "C03:index-build-failed", e, case); return; } };
+        let supplied: BTreeMap<u64, (char, i128)> = spec.docs.iter().filter_map(|d| d.attrs.as_ref().and_then(|a| a.iter().find(|(k, _)| *k == JKEY_MIXED)).and_then(|(_, v)| match v {
+            JVal::Int(i) => Some((d.id, ('i', *i as i128))), JVal::UInt(u) => Some((d.id, ('u', *u as i128))), _ => None })).collect();
+        let written = |ctx: &mut Ctx, ids: &mut dyn Iterator<Item = u64>| -> Option<(String, i128, i128)> {
+            let vs: Vec<(char, i128)> = ids.filter_map(|id| supplied.get(&id).copied()).collect();
+            if vs.is_empty() { return None; }
+            let t = ctx.model.ask(&format!("C03 jwritten {}", vs.iter().map(|(c, v)| format!("{c}:{v}")).collect::<Vec<_>>().join(",")));
+            Some((t, vs.iter().map(|x| x.1).min().unwrap(), vs.iter().map(|x| x.1).max().unwrap()))
+        };
+        let merged = spec.merge && surviving_chunks(spec) >= 2;
+        for (si, r) in b.searcher.segment_readers().iter().enumerate() {
+            let pred: Option<String> = if merged {
+                // the merger types the column from the (type, min, max) of every surviving source column
+                let deleted: BTreeSet<u64> = spec.deletes.iter().map(|x| x.1).collect();
+                let mut srcs = vec![];
+                let mut pos = 0usize;
+                for n in &spec.chunks {
+                    let docs = &spec.docs[pos..(pos + n).min(spec.docs.len())];
+                    pos = (pos + n).min(spec.docs.len());
+                    if docs.is_empty() || docs.iter().all(|d| deleted.contains(&d.id)) { continue; }
+                    if let Some((t, mn, mx)) = written(ctx, &mut docs.iter().map(|d| d.id)) { srcs.push(format!("{t}:{mn}:{mx}")); }
+                }
+                if srcs.is_empty() { None } else { Some(ctx.model.ask(&format!("C03 jmerge {}", srcs.join(",")))) }
+            } else {
+                written(ctx, &mut b.segs[si].iter().map(|(d, _)| d.id)).map(|x| x.0)
+            };
+            let real = real_col(r, JKEY_MIXED);
+            ctx.report.count(&format!("json-mixed-column-type:{}{}", real.clone().ok().flatten().unwrap_or("none"), if merged { ":merged" } else { "" }));
+            ctx.report.case(&format!("jmix|{}|{:?}|{}", merged, pred, b.segs[si].len()), true);
+            if real != Ok(pred.as_deref().map(|x| match x { "i" => "i", "u" => "u", _ => "f" })) {
+                ctx.report.violation("model", "C03:json-column-type-model-vs-implementation", format!("segment {si} attrs.m: real column type {:?}, model {:?}", real, pred), case.clone());
+            }
+            // the merged type is the write-time type of all surviving source values together (C03_json_merged_column_type_mixed)
+            if merged {
+                let all = written(ctx, &mut json_alive_source_ids(spec).into_iter()).map(|x| x.0);
+                if all != pred {
+                    ctx.report.violation("model", "C03:json-merged-column-type-differs-from-union", format!("merged {:?}, write-time type of the union {:?}", pred, all), case.clone());
+                }
+            }
+        }
+    }
+}
+
+/// ids of the documents of every source segment alive at merge time (deleted documents of a surviving chunk included)
+fn json_alive_source_ids(spec: &CorpusSpec) -> Vec<u64> {
+    let deleted: BTreeSet<u64> = spec.deletes.iter().map(|x| x.1).collect();
+    let mut out = vec![];
+    let mut pos = 0usize;
+    for n in &spec.chunks {
+        let docs = &spec.docs[pos..(pos + n).min(spec.docs.len())];
+        pos = (pos + n).min(spec.docs.len());
+        if docs.is_empty() || docs.iter().all(|d| deleted.contains(&d.id)) { continue; }
+        out.extend(docs.iter().map(|d| d.id));
+    }
+    out
+}
+
+// ---------------------------------------------------------------------------------------------
+// fast-field range: which scorer search_on_u64_ff builds per segment (min/max pruning)
+// ---------------------------------------------------------------------------------------------
+
+fn check_fast_range_kinds(ctx: &mut Ctx, n_corpora: u64, n_queries: usize) {
+    use tantivy::query::{AllScorer, EmptyScorer};
+    for ci in 0..n_corpora {
+        let mut rng = ctx.rng.fork();
+        let mut spec = gen_corpus(&mut rng, 1);
+        spec.merge = false;
+        // every second corpus: every document carries `num` (full column) and the values are narrow
+        if ci % 2 == 0 {
+            for d in spec.docs.iter_mut() { d.num = Some(5 + rng.below(6)); }
+        }
+        let b = match build(&spec) { Ok(b) => b, Err(_) => continue };
+        for _ in 0..n_queries {
+            let f = if rng.chance(1, 4) { F_ID } else { F_NUM };
+            let mut mk = |rng: &mut Rng| -> u64 { if f == F_ID { 995 + rng.below(80) } else { match rng.below(4) { 0 => boundary_u64(rng), _ => rng.below(14) } } };
+            let mut bound = |rng: &mut Rng| -> (char, u64) { match rng.below(5) { 0 => ('u', 0), 1 | 2 => ('i', mk(rng)), _ => ('e', mk(rng)) } };
+            let (mut lo, hi) = (bound(&mut rng), bound(&mut rng));
+            if lo.0 == 'u' && hi.0 == 'u' { lo = ('i', mk(&mut rng)); }
+            let to_b = |x: (char, u64)| match x.0 { 'i' => Bound::Included(Term::from_field_u64(fld(f), x.1)), 'e' => Bound::Excluded(Term::from_field_u64(fld(f), x.1)), _ => Bound::Unbounded };
+            let q = RangeQuery::new(to_b(lo), to_b(hi));
+            let case = json!({"kind": "fast-range-kind", "corpus": spec, "field": f, "lo": [lo.0.to_string(), lo.1], "hi": [hi.0.to_string(), hi.1]});
+            let w = match q.weight(EnableScoring::disabled_from_searcher(&b.searcher)) { Ok(w) => w, Err(e) => { ctx.report.violation("oracle", "C03:unexpected-error", e.to_string(), case); continue; } };
+            for (si, r) in b.searcher.segment_readers().iter().enumerate() {
+                let has_col = b.segs[si].iter().any(|(d, _)| d.fast.iter().any(|(g, _)| *g == f));
+                let sc = match catch_unwind(AssertUnwindSafe(|| w.scorer(r, 1.0))) {
+                    Ok(Ok(sc)) => sc,
+                    Ok(Err(e)) => { ctx.report.violation("oracle", "C03:unexpected-error", e.to_string(), case.clone()); continue; }
+                    Err(_) => { ctx.report.violation("oracle", "C03:panic", format!("range scorer panicked ({})", last_panic()), case.clone()); continue; }
+                };
+                let real = if sc.is::<AllScorer>() { "all" } else if sc.is::<EmptyScorer>() { "empty" } else { "range" };
+                let mut dbg = String::new();
+                // a schema-declared fast field has a (possibly empty) column in every segment
+                let expect = {
+                    let col = r.fast_fields().u64(FIELD_NAMES[f as usize]).unwrap();
+                    let full = col.index.get_cardinality() == tantivy::columnar::Cardinality::Full;
+                    let ans = ctx.model.ask(&format!("C03 ffrange {} {} {} {} {} {} {}", lo.0, lo.1, hi.0, hi.1, col.min_value(), col.max_value(), full as u8));
+                    dbg = format!("column min {} max {} full {} -> {ans}", col.min_value(), col.max_value(), full);
+                    ans.split(':').next().unwrap_or("").to_string()
+                };
+                ctx.report.count(&format!("fast-range-kind:{real}"));
+                ctx.report.case(&format!("frk|{}|{:?}|{:?}|{}|{}", f, lo, hi, si, b.segs[si].len()), has_col);
+                if real != expect {
+                    ctx.report.violation("model", "C03:fast-range-scorer-kind-model-vs-implementation", format!("segment {si}: search_on_u64_ff built a {real} scorer, the model says {expect} ({dbg}) for {}:{:?}..{:?}", FIELD_NAMES[f as usize], lo, hi), case.clone());
+                }
+                // the oracle on the scorer itself: it selects exactly the documents whose value is in range
+                let mut sc = sc;
+                let mut got: Vec<u32> = vec![];
+                let mut d = sc.doc();
+                while d != TERMINATED { got.push(d); d = sc.advance(); }
+                let inr = |v: u128| -> bool {
+                    (match lo.0 { 'i' => v >= lo.1 as u128, 'e' => v > lo.1 as u128, _ => true }) && (match hi.0 { 'i' => v <= hi.1 as u128, 'e' => v < hi.1 as u128, _ => true })
+                };
+                let want: Vec<u32> = b.segs[si].iter().enumerate().filter(|(_, (md, _))| md.fast.iter().any(|(g, v)| *g == f && inr(*v))).map(|(i, _)| i as u32).collect();
+                if got != want {
+                    ctx.report.violation("oracle", "C03:fast-range-scorer-differs-from-brute-force", format!("segment {si}: {real} scorer yields {} docs, {} expected for {}:{:?}..{:?}", got.len(), want.len(), FIELD_NAMES[f as usize], lo, hi), case.clone());
+                }
+            }
         }
     }
 }
@@ -2099,6 +2338,10 @@ pub fn replay(ctx: &mut Ctx, case: &serde_json::Value) {
                 _ => ctx.report.notes.push("replay: bad json-range case".into()),
             }
         }
+        "json-mixed-column" => match serde_json::from_value::<CorpusSpec>(case["corpus"].clone()) {
+            Ok(spec) => check_json_mixed_case(ctx, &spec),
+            Err(_) => ctx.report.notes.push("replay: bad json-mixed-column case".into()),
+        },
         "enc" => check_encodings(ctx),
         k => ctx.report.notes.push(format!("replay kind {k:?} re-runs the generated stream")),
     }
@@ -2118,6 +2361,8 @@ pub fn run(ctx: &mut Ctx) {
         "i64_to_u64 / f64_to_u64 = Gen.OrderEnc (extracted), monotone on sorted samples, term bytes = big-endian".into(),
         "range over a numeric JSON path (i64 / u64 bound term × i64 / u64 column, incl / excl / unbounded): DocSetCollector, TopDocs, Count = numeric meaning = Lean JsonRange.implMatch per segment; column type = colOf".into(),
         "phrase-prefix queries with position gaps / shifted offsets: all paths = Lean semPhrasePrefix (C03_phrase_prefix_iff)".into(),
+        "fast-field range: the scorer type search_on_u64_ff builds per segment (AllScorer / EmptyScorer / other, observed by downcast) = Lean FastRange.classify on the column's min / max / cardinality; the scorer's documents = brute force".into(),
+        "JSON path fed i64- and u64-supplied values: the real column type per segment (i64 / u64 / f64), written and merged = Lean JsonRange.writtenCol / mergedCol; merged type = write-time type of the union".into(),
         "exhaustive boolean trees (≤ 2 clauses quick, ≤ 3 thorough) × occur × msm over term/all/empty leaf kinds: all paths = answer = compile model".into(),
     ];
     std::panic::set_hook(Box::new(|info| {
@@ -2215,4 +2460,8 @@ pub fn run(ctx: &mut Ctx) {
             check_queries(ctx, &spec, &b, chunk);
         }
     }
+    let (fc, fq) = (ctx.budget(6, 80), ctx.budget(25, 40) as usize);
+    check_fast_range_kinds(ctx, fc, fq);
+    let mc = ctx.budget(60, 400);
+    check_json_mixed_column_types(ctx, mc);
 }
